@@ -155,3 +155,11 @@ Theorem C12_src_parblock_copy_reports_every_thread : forall walk disp,
 Proof. exact x_parblock_copy_ok_iff. Qed.
 Print Assumptions C12_src_parfile_copy_reports_every_thread.
 Print Assumptions C12_src_parblock_copy_reports_every_thread.
+
+(* ---- the worker loops, translated: every kind of operation returns its failure from the worker (Copy and Link also send
+   an Error update; a special file's only report is the worker's result), and nothing else happens on a failure path ---- *)
+Theorem C12_src_every_failure_is_returned :
+  forall routes, List.In routes [x_parfile_error_routes; x_parblock_error_routes] ->
+  List.map fst routes = [0; 1; 2]%N /\ forall k r, List.In (k, r) routes -> List.In 2%N r /\ ~ List.In 99%N r.
+Proof. exact x_every_failure_is_returned. Qed.
+Print Assumptions C12_src_every_failure_is_returned.
